@@ -123,6 +123,9 @@ def run(ck: Checker):
     # hand, and explicit causes / contexts are part of "the child's traceback text"
     for c in [n for n in walk_deep_func(init.node) if isinstance(n, ast.Call) and (dotted(n.func) or '').endswith('format_exception')]:
         ch = [k.value for k in c.keywords if k.arg == 'chain']
+        lim = [k.value for k in c.keywords if k.arg == 'limit'] + ([c.args[3]] if len(c.args) > 3 else [])
+        if lim and not is_none(lim[0]):
+            probs.append(f'L{c.lineno}: the traceback is formatted with limit={norm_text(lim[0])}: a positive limit keeps the OUTERMOST frames — for a traceback deeper than the limit the text silently loses the innermost frames, i.e. the site where the exception was raised')
         if ch and not (isinstance(ch[0], ast.Constant) and ch[0].value is True):
             probs.append(f'L{c.lineno}: the traceback is formatted with chain={norm_text(ch[0])}: the text of the cause chain — including the remote traceback of an earlier hop when the exception was re-raised before being wrapped again — is dropped')
     ck.ob('C15-3', init, fwd[0].ast if fwd else init.node, not probs, '; '.join(probs) if probs else 'own traceback → formatted; no own traceback but remote → the forwarded text is reused verbatim; neither → ValueError')
